@@ -76,8 +76,8 @@ theorem C04_exact {g : Graph} (hg : g.WF) {cfg : Cfg} (hw : 1 ≤ cfg.workers) {
     cases hs : s.skipped with
     | nil => rfl
     | cons a t =>
-      rcases h4.skipWhy (by rw [hs]; simp) with h1 | h1
-      · exact absurd hf h1
+      rcases h4.skipWhy (by rw [hs]; simp) with ⟨k, _, hlt⟩ | h1
+      · have := (inv2_reach hw hr).errsLen; rw [hf] at this; simp at this; omega
       · rw [hc] at h1; cases h1
   obtain ⟨q1, q2, _⟩ := h4.quiet (by rw [hc]; rfl)
   -- whatever was enqueued has completed OK
